@@ -50,6 +50,14 @@ impl Scheduler {
             debug!("next: {:?}", signal);
             match signal {
                 Signal::Task(task) => {
+                    // the process may have left the cache and come back from the store since
+                    // the task was queued: the task to run is the one of the current process
+                    let rt = task.runtime().clone();
+                    let task = rt
+                        .cache()
+                        .proc(&task.pid, &rt)
+                        .and_then(|proc| proc.task(&task.id))
+                        .unwrap_or(task);
                     let ctx = &task.create_context();
                     // a task that an action finished while it was still queued has nothing
                     // left to do; executing it would only turn its final state into an error
